@@ -8,7 +8,7 @@ with the reference interpreter working on the AST.
 import time
 
 from . import lvs, monitors, refcodec as rc
-from .common import raising_site
+from .common import raising_site, set_debug_logging
 
 from ndn.app_support.light_versec import compile_lvs, Checker, SemanticError, LvsModelError
 from ndn.app_support.light_versec import binary as bny
@@ -101,6 +101,10 @@ def run(ctx):
             schema = lvs.gen_schema(rng, with_signers=(si % 4 == 3))
         text = lvs.schema_text(schema)
         FNS_LIB, FNS_REF = lvs.fns_for(schema)
+        # the application's log level is no input: every fourth schema is compiled and asked about with the library's loggers at DEBUG
+        set_debug_logging(si % 4 == 1)
+        if si % 4 == 1:
+            ctx.event('schema-checked-while-the-application-logs-at-DEBUG')
         if schema.get('default_fns'):
             ctx.event('schema-checked-with-the-built-in-functions')
         w = {'schema': text}
@@ -257,9 +261,10 @@ def run(ctx):
         ctx.require_reach(k)
     for k in ('name-matching', 'name-not-matching'):
         ctx.need_event(k)
+    set_debug_logging(False)
     lvs.REENTER['checker'] = None
     ctx.extra['user_function_calls_that_re_entered_the_checker'] = lvs.REENTER['calls']
-    for k in ('user-functions-provided-after-construction', 'user-functions-replaced-after-construction', 'schema-text-compiled-twice', 'rival-checker-with-same-named-functions', 'schema-with-functions-that-re-enter-their-checker'):
+    for k in ('schema-checked-while-the-application-logs-at-DEBUG', 'user-functions-provided-after-construction', 'user-functions-replaced-after-construction', 'schema-text-compiled-twice', 'rival-checker-with-same-named-functions', 'schema-with-functions-that-re-enter-their-checker'):
         ctx.need_event(k)
     ctx.need_class('schema-with-double-reference')
     ctx.need_event('schema', 40)      # most generated schemas must have compiled, otherwise nothing was decided
